@@ -19,10 +19,10 @@ OSERR = "builtins.OSError"
 
 def run(ctx: Ctx, chk) -> None:
     chk.assume("A1", "A3", "A4", "A5")
-    eea_stream(ctx, chk)
-    conn_guard(ctx, chk)
-    frame1(ctx, chk)
-    factory1(ctx, chk)
+    chk.run_rule(eea_stream, ctx)
+    chk.run_rule(conn_guard, ctx)
+    chk.run_rule(frame1, ctx)
+    chk.run_rule(factory1, ctx)
 
 
 def eea_stream(ctx: Ctx, chk) -> None:
